@@ -4,12 +4,27 @@
 From BigNum Require Import Base BaseLemmas AddSub SpecAddSub AddSubProofs ShiftCore Div SpecDiv
   DivProofs DivProofsCore DivProofsApi DivProofsSign Bits SpecBits BitsLemmas BitsProofsU BitsProofsTC
   BitsProofsI BitsProofsSNB BitDigits Iter Bytes SpecBytes BytesLemmas BytesProofs SignedBytesProofs
-  Serde SerdeProofs Sign SpecSign SignProofs FormsAddSubLeaves Hist SpecHist.
+  Serde SerdeProofs Sign SpecSign SignProofs FormsAddSubLeaves
+  Mul MulProofs PgrLoop PgrLoopProofs Pow SpecPow PowProofs Gcd SpecGcd GcdProofs GcdProofs2
+  Roots SpecRoots RootsMath RootsProofs Radix RadixText RadixKernels RadixApi SpecRadix RadixProofs RadixInst
+  Hist SpecHist.
 Open Scope Z_scope.
 
 (** * Vocabulary *)
 Definition hist_ok (P : hist_params) : bool :=
-  addsub_ok (hp_as P) && div_ok (hp_div P) && bits_ok (hp_bits P).
+  addsub_ok (hp_as P) && div_ok (hp_div P) && bits_ok (hp_bits P) &&
+  mul_ok (hp_mul P) && pow_ok (hp_pow P) && gcd_ok (hp_gcd P) && roots_ok (hp_roots P) && radix_ok (hp_radix P).
+
+(** What the operations that MULTIPLY (`*=`, pow, cbrt, nth_root, lcm) and the text of values of
+    64 digits and more rest on: the two statements of property C02 (area `mul`, not yet proved
+    there) about the kernels every product goes through.  Nothing else is assumed, and nothing
+    at all for the operations that do not multiply. *)
+Definition mul_statements : Prop :=
+  (forall a s, canon a -> 0 <= s < B -> scalar_mul a s = Ret (enc (val a * s))) /\
+  (forall mp x y, mul_ok mp = true -> canon x -> canon y -> mul3 mp x y = Ret (enc (val x * val y))).
+
+Definition uses_mul (o : op) : bool :=
+  match o with OMul _ | OMulS _ _ | OPow _ | OCbrt | ONthRoot _ | OLcm _ => true | _ => false end.
 
 Definition ocanon (s : obj) : Prop := match s with OU d => canon d | OI x => icanon x end.
 Definition oval (s : obj) : Z := match s with OU d => val d | OI x => ival x end.
@@ -22,12 +37,16 @@ Definition in_width (t : swidth) (s : Z) : Prop :=
 Definition op_wf (o : op) : Prop :=
   match o with
   | OAdd y | OSub y | ODiv y | ORem y | OAnd y | OOr y | OXor y | OCloneFrom y
-  | ODivFloor y | OModFloor y | ODivEuclid y | ORemEuclid y | ODivCeil y => raw_wf y
+  | ODivFloor y | OModFloor y | ODivEuclid y | ORemEuclid y | ODivCeil y
+  | OMul y | OGcd y | OLcm y => raw_wf y
+  | OPow n | ONthRoot n => 0 <= n < 2 ^ 32
   | OSetBit i _ => 0 <= i < B
   | OAssign _ w => inb (2 ^ 32) w
-  | OAddS t s | OSubS t s | ODivS t s | ORemS t s => in_width t s
+  | OAddS t s | OSubS t s | ODivS t s | ORemS t s | OMulS t s => in_width t s
   | _ => True
   end.
+(** well-formed, and - only for an operation that multiplies - the C02 statements *)
+Definition op_ok (o : op) : Prop := op_wf o /\ (uses_mul o = true -> mul_statements).
 Definition ctor_wf (c : ctor) : Prop :=
   match c with
   | CUVec d | CIParts _ d | CIFromU d => wf d
@@ -36,8 +55,85 @@ Definition ctor_wf (c : ctor) : Prop :=
   end.
 
 Lemma hist_ok_inv P : hist_ok P = true ->
-  addsub_ok (hp_as P) = true /\ div_ok (hp_div P) = true /\ bits_ok (hp_bits P) = true.
-Proof. unfold hist_ok. intros H. apply andb_prop in H as [H H3]. apply andb_prop in H as [H1 H2]. auto. Qed.
+  addsub_ok (hp_as P) = true /\ div_ok (hp_div P) = true /\ bits_ok (hp_bits P) = true /\
+  mul_ok (hp_mul P) = true /\ pow_ok (hp_pow P) = true /\ gcd_ok (hp_gcd P) = true /\
+  roots_ok (hp_roots P) = true /\ radix_ok (hp_radix P) = true.
+Proof.
+  unfold hist_ok. intros H.
+  apply andb_prop in H as [H H8]. apply andb_prop in H as [H H7]. apply andb_prop in H as [H H6].
+  apply andb_prop in H as [H H5]. apply andb_prop in H as [H H4]. apply andb_prop in H as [H H3].
+  apply andb_prop in H as [H1 H2]. repeat split; assumption.
+Qed.
+
+(** ** consequences of the two multiplication statements *)
+Section MulFacts.
+  Hypothesis MS : mul_statements.
+  Variable mp : mul_params.
+  Hypothesis Hmp : mul_ok mp = true.
+
+  Lemma canon_digit_cons d l : canon (d :: l) -> 0 <= d < B.
+  Proof. intros [W _]. apply wf_cons in W. apply W. Qed.
+
+  Lemma umul_exact : bmul_exact (umul mp).
+  Proof.
+    destruct MS as [Sc M3]. intros a b Ca Cb. unfold umul, umul_with.
+    destruct a as [|a0 [|a1 a'']]; destruct b as [|b0 [|b1 b'']];
+      try (rewrite ?val_nil, ?Z.mul_0_l, ?Z.mul_0_r; reflexivity).
+    - rewrite Sc by (auto; eapply canon_digit_cons; eauto). rewrite (val_single b0). reflexivity.
+    - rewrite Sc by (auto; eapply canon_digit_cons; eauto). rewrite (val_single a0). f_equal. f_equal. ring.
+    - rewrite Sc by (auto; eapply canon_digit_cons; eauto). rewrite (val_single b0). reflexivity.
+    - apply (M3 mp); auto.
+  Qed.
+
+  Lemma umul_assign_exact a b : canon a -> canon b -> umul_assign mp a b = Ret (enc (val a * val b)).
+  Proof.
+    destruct MS as [Sc M3]. intros Ca Cb. unfold umul_assign.
+    destruct a as [|a0 [|a1 a'']]; destruct b as [|b0 [|b1 b'']];
+      try (rewrite ?val_nil, ?Z.mul_0_l, ?Z.mul_0_r; reflexivity).
+    - rewrite Sc by (auto; eapply canon_digit_cons; eauto). rewrite (val_single b0). reflexivity.
+    - rewrite Sc by (auto; eapply canon_digit_cons; eauto). rewrite (val_single a0). f_equal. f_equal. ring.
+    - rewrite Sc by (auto; eapply canon_digit_cons; eauto). rewrite (val_single b0). reflexivity.
+    - apply (M3 mp); auto.
+  Qed.
+
+  Lemma umul_u128_exact a s : canon a -> 0 <= s < B * B -> umul_u128 mp a s = Ret (enc (val a * s)).
+  Proof.
+    destruct MS as [Sc M3]. intros Ca Hs. unfold umul_u128. pose proof B_pos.
+    destruct (Z.ltb_spec s B) as [L|G]; [apply Sc; auto; lia|].
+    destruct (wf_lohi s Hs) as [W V]. rewrite M3; auto.
+    - rewrite V. reflexivity.
+    - apply wf_cons in W as [D0 W1]. apply wf_cons in W1 as [D1 _].
+      apply (canon_app_last [s mod B] (s / B)); auto.
+      + apply wf_single; auto.
+      + intros E. assert (s / B > 0) by (apply Z.lt_gt, Z.div_str_pos; lia). lia.
+  Qed.
+
+  Lemma imul_assign_exact x y : icanon x -> icanon y ->
+    imul_assign mp x y = Ret (ienc (ival x * ival y)).
+  Proof.
+    intros Cx Cy. unfold imul_assign.
+    rewrite umul_assign_exact by (apply icanon_mag; auto). cbn [bind]. f_equal.
+    pose proof (val_nonneg _ (proj1 (icanon_mag x Cx))) as Px.
+    pose proof (val_nonneg _ (proj1 (icanon_mag y Cy))) as Py.
+    destruct (enc (val (mag x) * val (mag y))) as [|m0 m'] eqn:E.
+    - apply enc_nil_iff in E; [|nia].
+      replace (ival x * ival y) with 0; [reflexivity|]. unfold ival.
+      replace (sign_z (sg x) * val (mag x) * (sign_z (sg y) * val (mag y)))
+        with (sign_z (sg x) * sign_z (sg y) * (val (mag x) * val (mag y))) by ring.
+      rewrite E. ring.
+    - assert (N : val (mag x) * val (mag y) <> 0).
+      { intros Z0. rewrite Z0 in E. discriminate. }
+      rewrite <- E.
+      assert (Sx : sg x <> NoSign).
+      { intros S. apply Cx in S. rewrite S in N. cbn in N. lia. }
+      assert (Sy : sg y <> NoSign).
+      { intros S. apply Cy in S. rewrite S in N. cbn in N. lia. }
+      transitivity (from_biguint (sign_mul (sg x) (sg y)) (enc (val (mag x) * val (mag y)))).
+      + rewrite E. destruct (sg x), (sg y); try congruence; reflexivity.
+      + rewrite from_biguint_ienc by apply enc_canon. rewrite enc_val by nia. rewrite sign_mul_z.
+        unfold ival. f_equal. ring.
+  Qed.
+End MulFacts.
 
 Lemma ocanon_oenc k v : ocanon (oenc k v).
 Proof. destruct k; [apply enc_canon|apply ienc_canon]. Qed.
@@ -67,7 +163,23 @@ Section Step.
   Hypothesis HP : hist_ok P = true.
   Let Has := proj1 (hist_ok_inv P HP).
   Let Hdiv := proj1 (proj2 (hist_ok_inv P HP)).
-  Let Hbits := proj2 (proj2 (hist_ok_inv P HP)).
+  Let Hbits := proj1 (proj2 (proj2 (hist_ok_inv P HP))).
+  Let Hmul := proj1 (proj2 (proj2 (proj2 (hist_ok_inv P HP)))).
+  Let Hpow := proj1 (proj2 (proj2 (proj2 (proj2 (hist_ok_inv P HP))))).
+  Let Hgcd := proj1 (proj2 (proj2 (proj2 (proj2 (proj2 (hist_ok_inv P HP)))))).
+  Let Hroots := proj1 (proj2 (proj2 (proj2 (proj2 (proj2 (proj2 (hist_ok_inv P HP))))))).
+
+  Lemma bdivrem_ok : bdivrem_exact (hp_bdivrem P).
+  Proof. intros a b Ca Cb. apply udivrem_spec; auto. Qed.
+  Lemma bmul_ok : mul_statements -> bmul_exact (hp_bmul P).
+  Proof. intros MS. apply umul_exact; auto. Qed.
+  Lemma hist_guess_ok : guess_ok hist_guess.
+  Proof.
+    intros x n mb. unfold hist_guess, guess_nostd.
+    rewrite ShiftCoreProofs.ushl_spec by (try lia; apply canon_1).
+    rewrite val_single, Z.mul_1_l. split; [apply enc_canon|].
+    pose proof (Z.pow_pos_nonneg 2 (Z.max 0 mb) ltac:(lia) ltac:(lia)). rewrite enc_val; lia.
+  Qed.
 
   Lemma usub_enc a b : canon a -> canon b ->
     usub (hp_as P) a b = omap enc (spec_usub (val a) (val b)).
@@ -79,10 +191,10 @@ Section Step.
   Lemma in_width_B t s : in_width t s -> t <> S128 -> 0 <= s < B.
   Proof. destruct t; cbn; intros H N; try congruence; auto. rewrite B_val. lia. Qed.
 
-  Theorem ustep_spec a o : canon a -> zlen a < 2 ^ 58 -> op_wf o ->
+  Theorem ustep_spec a o : canon a -> zlen a < 2 ^ 58 -> op_ok o ->
     ustep P a o = omap enc (sstep KU (val a) o).
   Proof.
-    intros Ca Hfit Hwf.
+    intros Ca Hfit [Hwf HM].
     assert (Wa : wf a) by apply Ca.
     destruct o; cbn [op_wf] in Hwf; cbn [ustep sstep];
       try (destruct y as [y|y]; cbn [operand okind kind_eqb rawval]; [|reflexivity];
@@ -131,13 +243,30 @@ Section Step.
     - (* div_euclid *) apply udiv_spec; auto.
     - (* rem_euclid *) apply urem_spec; auto.
     - (* div_ceil *) apply udiv_ceil_spec; auto.
+    - (* *= *) rewrite umul_assign_exact by auto. reflexivity.
+    - (* *= scalar *)
+      destruct t; cbn [in_width] in Hwf; unfold umul_digit.
+      + rewrite (proj1 (HM eq_refl)) by (auto; rewrite B_val; lia). reflexivity.
+      + rewrite (proj1 (HM eq_refl)) by auto. reflexivity.
+      + rewrite umul_u128_exact by auto. reflexivity.
+    - (* pow *) rewrite (upow_prim_spec (hp_bmul P) (bmul_ok (HM eq_refl)) (hp_pow P) Hpow) by (auto; lia).
+      unfold spec_upow. rewrite zpow_safe_eq by lia. reflexivity.
+    - (* sqrt *) rewrite (usqrt_spec (hp_bdivrem P) bdivrem_ok (hp_as P) Has (hp_roots P) Hroots) by (auto using hist_guess_ok).
+      reflexivity.
+    - (* cbrt *) rewrite (ucbrt_spec (hp_bmul P) (hp_bdivrem P) (bmul_ok (HM eq_refl)) bdivrem_ok (hp_as P) Has (hp_roots P) Hroots)
+        by (auto using hist_guess_ok). reflexivity.
+    - (* nth_root *) apply (unth_root_spec (hp_bmul P) (hp_bdivrem P) (bmul_ok (HM eq_refl)) bdivrem_ok (hp_as P) Has (hp_pow P) Hpow (hp_roots P) Hroots);
+        auto using hist_guess_ok.
+    - (* gcd *) rewrite (ugcd_spec (hp_as P) Has (hp_gcd P) Hgcd) by auto. reflexivity.
+    - (* lcm *) rewrite (ulcm_spec (hp_bmul P) (hp_bdivrem P) (bmul_ok (HM eq_refl)) bdivrem_ok (hp_as P) Has (hp_gcd P) Hgcd) by auto.
+      reflexivity.
   Qed.
 
   (** * BigInt steps *)
-  Theorem istep_spec x o : icanon x -> zlen (mag x) < 2 ^ 58 -> op_wf o ->
+  Theorem istep_spec x o : icanon x -> zlen (mag x) < 2 ^ 58 -> op_ok o ->
     istep P x o = omap ienc (sstep KI (ival x) o).
   Proof.
-    intros Cx Hfit Hwf.
+    intros Cx Hfit [Hwf HM].
     destruct o; cbn [op_wf] in Hwf; cbn [istep sstep];
       try (destruct y as [y|y]; cbn [operand okind kind_eqb rawval]; [reflexivity|];
            unfold raw_wf in Hwf; cbn [odigits] in Hwf;
@@ -169,13 +298,25 @@ Section Step.
     - (* div_euclid *) apply idiv_euclid_spec; auto.
     - (* rem_euclid *) apply irem_euclid_spec; auto.
     - (* div_ceil *) apply idiv_ceil_spec; auto.
+    - (* *= *) rewrite imul_assign_exact by auto. reflexivity.
+    - reflexivity.
+    - (* pow *) rewrite (ipow_prim_spec (hp_bmul P) (bmul_ok (HM eq_refl)) (hp_pow P) Hpow) by (auto; lia).
+      unfold spec_upow. rewrite zpow_safe_eq by lia. reflexivity.
+    - (* sqrt *) apply (isqrt_spec (hp_bdivrem P) bdivrem_ok (hp_as P) Has (hp_roots P) Hroots); auto using hist_guess_ok.
+    - (* cbrt *) apply (icbrt_spec (hp_bmul P) (hp_bdivrem P) (bmul_ok (HM eq_refl)) bdivrem_ok (hp_as P) Has (hp_roots P) Hroots);
+        auto using hist_guess_ok.
+    - (* nth_root *) apply (inth_root_spec (hp_bmul P) (hp_bdivrem P) (bmul_ok (HM eq_refl)) bdivrem_ok (hp_as P) Has (hp_pow P) Hpow (hp_roots P) Hroots);
+        auto using hist_guess_ok.
+    - (* gcd *) rewrite (igcd_spec (hp_as P) Has (hp_gcd P) Hgcd) by auto. reflexivity.
+    - (* lcm *) rewrite (ilcm_spec (hp_bmul P) (hp_bdivrem P) (bmul_ok (HM eq_refl)) bdivrem_ok (hp_as P) Has (hp_gcd P) Hgcd) by auto.
+      reflexivity.
   Qed.
 
   (** * One step of the machine refines the Z-level step *)
   Lemma fits_lt s : fits s = true -> zlen (odigits s) < 2 ^ 58.
   Proof. unfold fits. intros H. apply Z.ltb_lt in H. exact H. Qed.
 
-  Theorem step_spec s o : ocanon s -> fits s = true -> op_wf o ->
+  Theorem step_spec s o : ocanon s -> fits s = true -> op_ok o ->
     step P s o = omap (oenc (okind s)) (sstep (okind s) (oval s) o).
   Proof.
     intros Cs Hf Hw. apply fits_lt in Hf. destruct s as [a|x]; cbn [step okind oval odigits] in *.
@@ -184,7 +325,7 @@ Section Step.
   Qed.
 
   (** the invariant is preserved by every operation *)
-  Theorem step_canon s o s' : ocanon s -> fits s = true -> op_wf o ->
+  Theorem step_canon s o s' : ocanon s -> fits s = true -> op_ok o ->
     step P s o = Ret s' -> ocanon s' /\ okind s' = okind s.
   Proof.
     intros Cs Hf Hw E. rewrite step_spec in E by auto.
@@ -244,7 +385,8 @@ Proof.
     try (unfold operand in E; destruct (kind_eqb KU (okind y)) eqn:K; [|discriminate];
          assert (Hy : 0 <= rawval y) by (apply rawval_nonneg_u; auto; destruct y; [reflexivity|discriminate]);
          set (b := rawval y) in *; clearbody b);
-    unfold spec_usub, spec_udiv, spec_urem, spec_udiv_ceil, nz, spec_and, spec_or, spec_xor, ill_s in E;
+    unfold spec_usub, spec_udiv, spec_urem, spec_udiv_ceil, nz, spec_and, spec_or, spec_xor, ill_s,
+      spec_upow, spec_usqrt, spec_ucbrt, spec_unth_root, spec_lcm in E;
     try discriminate.
   - injection E as <-. lia.
   - destruct (v <? b) eqn:L; [discriminate|]. injection E as <-. apply Z.ltb_ge in L. lia.
@@ -279,7 +421,18 @@ Proof.
   - destruct (Z.eqb_spec b 0); [discriminate|]. injection E as <-. apply Z.mod_pos_bound. lia.
   - destruct (Z.eqb_spec b 0); [discriminate|]. injection E as <-.
     assert (- v / b <= 0) by (apply Z.div_le_upper_bound; lia). lia.
+  - injection E as <-. apply Z.mul_nonneg_nonneg; auto.
+  - injection E as <-. apply Z.mul_nonneg_nonneg; auto. destruct t; cbn in Hw; lia.
+  - injection E as <-. rewrite zpow_safe_eq by lia. apply Z.pow_nonneg. auto.
+  - injection E as <-. destruct (zroot_spec 2 v) as [H _]; lia.
+  - injection E as <-. destruct (zroot_spec 3 v) as [H _]; lia.
+  - destruct (Z.eqb_spec n 0); [discriminate|]. injection E as <-. destruct (zroot_spec n v) as [H _]; lia.
+  - injection E as <-. apply Z.gcd_nonneg.
+  - injection E as <-. apply zlcm_nonneg.
 Qed.
+
+Lemma sstep_nonneg_ok v o v' : 0 <= v -> op_ok o -> sstep KU v o = Ret v' -> 0 <= v'.
+Proof. intros Hv [Hw _]. apply sstep_nonneg; auto. Qed.
 
 (** * Histories *)
 Lemma fits_oenc k v : (k = KU -> 0 <= v) -> fits (oenc k v) = sfits v.
@@ -300,20 +453,20 @@ Section Run.
   Hypothesis HP : hist_ok P = true.
 
   (** one guarded step *)
-  Lemma gstep_spec k v o : (k = KU -> 0 <= v) -> sfits v = true -> op_wf o ->
+  Lemma gstep_spec k v o : (k = KU -> 0 <= v) -> sfits v = true -> op_ok o ->
     (do s1 <- step P (oenc k v) o; guard s1) = omap (oenc k) (do v1 <- sstep k v o; sguard v1).
   Proof.
     intros Hn Hf Hw.
     rewrite (step_spec P HP) by (auto using ocanon_oenc; rewrite fits_oenc; auto).
     rewrite okind_oenc, oval_oenc by auto.
     destruct (sstep k v o) as [v1| |] eqn:E; cbn [omap bind]; try reflexivity.
-    apply guard_oenc. intros ->. eapply sstep_nonneg; eauto.
+    apply guard_oenc. intros ->. eapply sstep_nonneg_ok; eauto.
   Qed.
 
   Lemma sguard_ret v v' : sguard v = Ret v' -> v' = v /\ sfits v = true.
   Proof. unfold sguard. destruct (sfits v); intros E; [injection E as <-; auto|discriminate]. Qed.
 
-  Theorem run_spec ops : forall k v, (k = KU -> 0 <= v) -> sfits v = true -> Forall op_wf ops ->
+  Theorem run_spec ops : forall k v, (k = KU -> 0 <= v) -> sfits v = true -> Forall op_ok ops ->
     run P (oenc k v) ops = omap (oenc k) (srun k v ops).
   Proof.
     induction ops as [|o r IH]; intros k v Hn Hf Hw; cbn [run srun]; [reflexivity|].
@@ -323,7 +476,7 @@ Section Run.
     - destruct (step P (oenc k v) o) as [s1| |] eqn:E2; cbn [bind] in G |- *.
       + destruct (sguard v1) as [v2| |] eqn:E3; cbn [omap bind] in G |- *; rewrite G; cbn [bind]; try reflexivity.
         apply sguard_ret in E3 as [-> F]. apply IH; auto.
-        intros ->. eapply sstep_nonneg; eauto.
+        intros ->. eapply sstep_nonneg_ok; eauto.
       + rewrite G. destruct (sguard v1); reflexivity || discriminate.
       + rewrite G. destruct (sguard v1); reflexivity || discriminate.
     - destruct (step P (oenc k v) o); cbn [bind] in G |- *; try exact G.
@@ -334,7 +487,7 @@ Section Run.
 
   (** every history of the machine computes the canonical representation of what the same
       history computes on integers, and panics exactly where that one does *)
-  Theorem history_spec c ops : ctor_wf c -> Forall op_wf ops ->
+  Theorem history_spec c ops : ctor_wf c -> Forall op_ok ops ->
     history P c ops = omap (oenc (fst (shistory c ops))) (snd (shistory c ops)).
   Proof.
     intros Hc Hw. unfold history, start, shistory. rewrite construct_spec by auto.
@@ -347,7 +500,7 @@ Section Run.
   Qed.
 
   (** the same for what the harness prints: every intermediate object *)
-  Lemma trace_spec ops : forall k v, (k = KU -> 0 <= v) -> sfits v = true -> Forall op_wf ops ->
+  Lemma trace_spec ops : forall k v, (k = KU -> 0 <= v) -> sfits v = true -> Forall op_ok ops ->
     trace P (oenc k v) ops = map (omap (oenc k)) (strace k v ops).
   Proof.
     induction ops as [|o r IH]; intros k v Hn Hf Hw; cbn [trace strace]; [reflexivity|].
@@ -356,10 +509,10 @@ Section Run.
     destruct (sstep k v o) as [v1| |] eqn:E1; cbn [bind omap map]; try reflexivity.
     destruct (sguard v1) as [v2| |] eqn:E3; cbn [omap map]; try reflexivity.
     apply sguard_ret in E3 as [-> F]. cbn [omap bind]. f_equal. apply IH; auto.
-    intros ->. eapply sstep_nonneg; eauto.
+    intros ->. eapply sstep_nonneg_ok; eauto.
   Qed.
 
-  Theorem history_trace_spec c ops : ctor_wf c -> Forall op_wf ops ->
+  Theorem history_trace_spec c ops : ctor_wf c -> Forall op_ok ops ->
     history_trace P c ops =
     map (omap (oenc (fst (shistory_trace c ops)))) (snd (shistory_trace c ops)).
   Proof.
@@ -373,7 +526,7 @@ Section Run.
   Qed.
 
   (** ** the invariant by induction over the history *)
-  Theorem run_canon ops : forall s s', ocanon s -> fits s = true -> Forall op_wf ops ->
+  Theorem run_canon ops : forall s s', ocanon s -> fits s = true -> Forall op_ok ops ->
     run P s ops = Ret s' -> ocanon s' /\ fits s' = true /\ okind s' = okind s.
   Proof.
     induction ops as [|o r IH]; intros s s' Cs Fs Hw E; cbn [run] in E.
@@ -392,7 +545,7 @@ Section Run.
     split; [apply ocanon_oenc|exact F].
   Qed.
 
-  Theorem reachable_canon c ops s0 s : ctor_wf c -> Forall op_wf ops ->
+  Theorem reachable_canon c ops s0 s : ctor_wf c -> Forall op_ok ops ->
     start c = Ret s0 -> run P s0 ops = Ret s -> ocanon s.
   Proof.
     intros Hc Hw E0 E. destruct (start_canon c s0 Hc E0) as [C0 F0].
@@ -560,48 +713,67 @@ Proof.
 Qed.
 
 (** ** Exports are functions of the integer *)
-Theorem export_spec e s : ocanon s -> In e (exports_for s) ->
-  export_of e s = sexport (okind s) e (oval s).
+Definition is_text (e : export) : bool := match e with EText _ => true | _ => false end.
+(** the text of a value of 64 digits or more goes through big products (C02 statements) *)
+Definition text_ok (s : obj) : Prop := zlen (odigits s) < 64 \/ mul_statements.
+
+Lemma text_ok_small_or_umul s : text_ok s -> small_or_umul (odigits s).
 Proof.
-  destruct s as [d|x]; cbn [ocanon exports_for okind oval]; intros C Hin.
-  - assert (W : wf d) by apply C.
-    destruct e; cbn [export_of sexport]; cbn in Hin;
-      try (exfalso; intuition discriminate).
-    + apply uto_u32_digits_spec; auto.
-    + rewrite uto_u64_digits_spec by auto. reflexivity.
-    + apply uto_bytes_le_spec; auto.
-    + apply uto_bytes_be_spec; auto.
-    + rewrite ubits_spec by auto. reflexivity.
-    + rewrite ucount_ones_spec by auto. reflexivity.
-    + rewrite utrailing_zeros_spec by auto. reflexivity.
-  - destruct e; cbn [export_of sexport]; cbn in Hin;
-      try (exfalso; intuition discriminate).
-    + rewrite ito_u32_digits_spec by auto. reflexivity.
-    + rewrite ito_u64_digits_spec by auto. reflexivity.
-    + rewrite ito_bytes_le_spec by auto. reflexivity.
-    + rewrite ito_bytes_be_spec by auto. reflexivity.
-    + apply to_signed_bytes_le_spec; auto.
-    + apply to_signed_bytes_be_spec; auto.
-    + rewrite ibits_spec by auto. reflexivity.
-    + rewrite itrailing_zeros_spec by auto. reflexivity.
+  intros [H|MS]; [left; exact H|right].
+  intros mp a b Hmp Ca Cb. apply umul_exact; auto.
 Qed.
 
-Theorem export_fun e a b : ocanon a -> ocanon b -> okind a = okind b -> oval a = oval b ->
-  export_of e a = export_of e b.
-Proof. intros Ca Cb K V. rewrite (ocanon_inj a b Ca Cb K V). reflexivity. Qed.
+Section Exports.
+  Variable P : hist_params.
+  Hypothesis HP : hist_ok P = true.
+  Let Hradix : radix_std (hp_radix P) :=
+    radix_ok_inv _ (proj2 (proj2 (proj2 (proj2 (proj2 (proj2 (proj2 (hist_ok_inv P HP)))))))).
+
+  Theorem export_spec e s : ocanon s -> In e (exports_for s) -> (is_text e = true -> text_ok s) ->
+    export_of P e s = sexport (okind s) e (oval s).
+  Proof.
+    destruct s as [d|x]; cbn [ocanon exports_for okind oval]; intros C Hin HT.
+    - assert (W : wf d) by apply C.
+      destruct e; cbn [export_of sexport]; cbn in Hin;
+        try (exfalso; intuition discriminate).
+      + apply uto_u32_digits_spec; auto.
+      + rewrite uto_u64_digits_spec by auto. reflexivity.
+      + apply uto_bytes_le_spec; auto.
+      + apply uto_bytes_be_spec; auto.
+      + rewrite ubits_spec by auto. reflexivity.
+      + rewrite ucount_ones_spec by auto. reflexivity.
+      + rewrite utrailing_zeros_spec by auto. reflexivity.
+      + apply inst_to_str_radix; auto. apply (text_ok_small_or_umul (OU d)). auto.
+    - destruct e; cbn [export_of sexport]; cbn in Hin;
+        try (exfalso; intuition discriminate).
+      + rewrite ito_u32_digits_spec by auto. reflexivity.
+      + rewrite ito_u64_digits_spec by auto. reflexivity.
+      + rewrite ito_bytes_le_spec by auto. reflexivity.
+      + rewrite ito_bytes_be_spec by auto. reflexivity.
+      + apply to_signed_bytes_le_spec; auto.
+      + apply to_signed_bytes_be_spec; auto.
+      + rewrite ibits_spec by auto. reflexivity.
+      + rewrite itrailing_zeros_spec by auto. reflexivity.
+      + apply inst_ito_str_radix; auto. apply (text_ok_small_or_umul (OI x)). auto.
+  Qed.
+
+  Theorem export_fun e a b : ocanon a -> ocanon b -> okind a = okind b -> oval a = oval b ->
+    export_of P e a = export_of P e b.
+  Proof. intros Ca Cb K V. rewrite (ocanon_inj a b Ca Cb K V). reflexivity. Qed.
+End Exports.
 
 (** * The property *)
 Section Top.
   Variable P : hist_params.
   Hypothesis HP : hist_ok P = true.
 
-  Theorem history_canon c ops s : ctor_wf c -> Forall op_wf ops -> history P c ops = Ret s -> ocanon s.
+  Theorem history_canon c ops s : ctor_wf c -> Forall op_ok ops -> history P c ops = Ret s -> ocanon s.
   Proof.
     intros Hc Hw E. unfold history in E. destruct (start c) as [s0| |] eqn:E0; cbn [bind] in E; try discriminate.
     eapply reachable_canon; eauto.
   Qed.
 
-  Theorem history_kind c ops s : ctor_wf c -> Forall op_wf ops -> history P c ops = Ret s ->
+  Theorem history_kind c ops s : ctor_wf c -> Forall op_ok ops -> history P c ops = Ret s ->
     okind s = fst (sconstruct c).
   Proof.
     intros Hc Hw E. rewrite history_spec in E by auto. unfold shistory in E.
@@ -614,15 +786,16 @@ Section Top.
       integer yield the SAME object; and on any two reachable objects of one type every
       observation is the one the integers dictate. *)
   Theorem indistinguishable ca opsa cb opsb a b :
-    ctor_wf ca -> Forall op_wf opsa -> ctor_wf cb -> Forall op_wf opsb ->
+    ctor_wf ca -> Forall op_ok opsa -> ctor_wf cb -> Forall op_ok opsb ->
     history P ca opsa = Ret a -> history P cb opsb = Ret b -> okind a = okind b ->
     (oval a = oval b -> a = b) /\
     oeq a b = Ret (oval a =? oval b) /\
     ocmp a b = Ret (oval a ?= oval b) /\
     (oval a = oval b -> hash_stream a = hash_stream b) /\
     (hash_stream a = hash_stream b -> oval a = oval b) /\
-    (forall e, In e (exports_for a) -> export_of e a = sexport (okind a) e (oval a)) /\
-    (forall e, oval a = oval b -> export_of e a = export_of e b) /\
+    (forall e, In e (exports_for a) -> (is_text e = true -> text_ok a) ->
+               export_of P e a = sexport (okind a) e (oval a)) /\
+    (forall e, oval a = oval b -> export_of P e a = export_of P e b) /\
     (exists m, omax a b = Ret m /\ (m = a \/ m = b) /\ oval m = Z.max (oval a) (oval b)) /\
     (exists m, omin a b = Ret m /\ (m = a \/ m = b) /\ oval m = Z.min (oval a) (oval b)) /\
     (osign a = NoSign <-> oval a = 0).
@@ -645,3 +818,15 @@ Section Top.
     - apply nosign_iff_zero; auto.
   Qed.
 End Top.
+
+(** * Operations that do not multiply need no premise at all *)
+Lemma op_ok_nomul o : op_wf o -> uses_mul o = false -> op_ok o.
+Proof. intros W N. split; [exact W|]. rewrite N. discriminate. Qed.
+Lemma ops_ok_nomul ops : Forall op_wf ops -> forallb (fun o => negb (uses_mul o)) ops = true -> Forall op_ok ops.
+Proof.
+  induction 1 as [|o r W _ IH]; cbn [forallb]; intros H; constructor.
+  - apply andb_prop in H as [H _]. apply op_ok_nomul; auto. destruct (uses_mul o); [discriminate|reflexivity].
+  - apply andb_prop in H as [_ H]. auto.
+Qed.
+Lemma ops_ok_mul ops : mul_statements -> Forall op_wf ops -> Forall op_ok ops.
+Proof. intros MS H. eapply Forall_impl; [|exact H]. intros o W. split; auto. Qed.
